@@ -104,7 +104,9 @@ func (c *FnCtx) callCommon(call *ssa.CallCommon, v ssa.Value, pos token.Pos) []s
 			c.usedExternal[key] = true
 		}
 		c.checkTypeInvsAtCall(callee, args, argTypes, pos)
+		c.curBindings, c.curCallee = bindings, callee
 		out := c.applyContract(con, callee, args, argTypes, sig, pos, mkResults, validateResults)
+		c.curBindings, c.curCallee = nil, nil
 		c.flushPendingHavoc()
 		c.assumeTypeInvsAfterCall(callee, args, argTypes, out, sig)
 		return out
@@ -211,6 +213,26 @@ func (c *FnCtx) applyContract(con *Contract, callee *ssa.Function, args []string
 	for i, n := range con.Params {
 		if i < len(args) {
 			env.vars[n] = sv{args[i], argTypes[i]}
+		}
+	}
+	// free variables of a closure: by name, the current content of the captured variable
+	if callee != nil && len(c.curBindings) == len(callee.FreeVars) {
+		for i, fv := range callee.FreeVars {
+			b := c.curBindings[i]
+			if _, isPtr := types.Unalias(fv.Type()).Underlying().(*types.Pointer); isPtr {
+				if _, isAlloc := b.(*ssa.Alloc); isAlloc {
+					a := c.addrOf(b)
+					if _, taken := env.vars[fv.Name()]; !taken {
+						env.vars[fv.Name()] = sv{c.load(a), a.ty}
+					}
+					continue
+				}
+			}
+			if t, ok := c.vals[b]; ok {
+				if _, taken := env.vars[fv.Name()]; !taken {
+					env.vars[fv.Name()] = sv{t, b.Type()}
+				}
+			}
 		}
 	}
 	// parameters typed by the callee's signature where available (argument types can be more
@@ -983,7 +1005,15 @@ func (c *FnCtx) evalCandidate(cand *candidate, env *specEnv) (string, error) {
 	}
 	c.nfresh++
 	r := fmt.Sprintf("r!q%d", c.nfresh)
-	return forall([][2]string{{r, "Int"}}, implies(and(le("0", r), le(r, c.entry["ALLOC"])), eq(sel(cur, r), sel(c.entry[h], r))), sel(cur, r)), nil
+	guards := []string{le("0", r), le(r, c.entry["ALLOC"])}
+	for _, name := range cand.except {
+		for _, p := range c.fn.Params {
+			if p.Name() == name {
+				guards = append(guards, not(eq(r, c.refOf(sv{c.vals[p], p.Type()}))))
+			}
+		}
+	}
+	return forall([][2]string{{r, "Int"}}, implies(and(guards...), eq(sel(cur, r), sel(c.entry[h], r))), sel(cur, r)), nil
 }
 
 func (c *FnCtx) loopClauses(li *loopInfo) []*Clause {
